@@ -277,7 +277,7 @@ def folderEff (n : Node) : Op → Folder → Folder
   | .fsDeleteFolder F =>
     fun G => if n.power = .on ∧ F ≠ "root" then (if G.name = F ∧ G.deleted = false then G.delete else G) else G
   | .fsRestoreFile F f =>
-    fun G => if n.power = .on then (if G.name = F ∧ G.deleted = false then G.mapFile f File.restore else G) else G
+    fun G => if n.power = .on then (if G.name = F ∧ G.deleted = false then G.mapFile f (File.restoreIn G.files) else G) else G
   | .fsRestoreFolder F => fun G => if n.power = .on then (if G.name = F then G.restore else G) else G
   | .fileSet F f h => fun G => if G.name = F then G.mapFile f (fun x => { x with actual := h }) else G
   | _ => fun G => G
@@ -411,7 +411,7 @@ theorem Folder.restoreFinish_actual :
   · simp
 
 theorem Folder.restoreTick_files :
-    G.restoreTick.files = if G.restoreCd = 1 then G.files.map File.restore else G.files := by
+    G.restoreTick.files = if G.restoreCd = 1 then G.files.map (File.restoreIn G.files) else G.files := by
   unfold Folder.restoreTick
   split
   · split
@@ -435,7 +435,7 @@ theorem Folder.restoreTick_rest :
   unfold Folder.restoreTick
   split
   · split
-    · have h := Folder.restoreFinish_rest { G with restoreCd := 0, files := G.files.map File.restore }
+    · have h := Folder.restoreFinish_rest { G with restoreCd := 0, files := G.files.map (File.restoreIn G.files) }
       exact ⟨h.1, h.2.1, h.2.2.1, h.2.2.2.1, h.2.2.2.2.1⟩
     · exact ⟨rfl, rfl, rfl, rfl, rfl⟩
   · exact ⟨rfl, rfl, rfl, rfl, rfl⟩
@@ -478,7 +478,7 @@ def fileEff (n : Node) (op : Op) (G : Folder) : File → File :=
   match op with
   | .tick => fun f =>
     if n.powerPhase.power = .on ∧ G.deleted = false then
-      (fun f2 : File => if G.restoreCd = 1 then f2.restore else f2)
+      (fun f2 : File => if G.restoreCd = 1 then File.restoreIn G.files f2 else f2)
         ((fun f1 : File => if G.scanCd = 1 then f1.scan else f1) (if n.powerPhase.scanCd = 1 then f.scan else f))
     else f
   | .folder F r => fun f =>
@@ -494,16 +494,38 @@ def fileEff (n : Node) (op : Op) (G : Folder) : File → File :=
     if n.power = .on ∧ G.name = F ∧ G.deleted = false ∧ f.name = nm ∧ f.deleted = false then (f.handle r).1 else f
   | .fsDeleteFolder F => fun f => if n.power = .on ∧ F ≠ "root" ∧ G.name = F ∧ G.deleted = false then f.delete else f
   | .fsRestoreFile F nm => fun f =>
-    if n.power = .on ∧ G.name = F ∧ G.deleted = false ∧ f.name = nm then f.restore else f
+    if n.power = .on ∧ G.name = F ∧ G.deleted = false ∧ f.name = nm then File.restoreIn G.files f else f
   | .fileSet F nm h => fun f => if G.name = F ∧ f.name = nm then { f with actual := h } else f
   | _ => fun f => f
 
+theorem hasLive_map (name : String) (fs : List File) (g : File → File)
+    (hg : ∀ x, (g x).name = x.name ∧ (g x).deleted = x.deleted) : hasLive name (fs.map g) = hasLive name fs := by
+  unfold hasLive
+  rw [List.any_map]
+  congr 1
+  funext x
+  simp only [Function.comp, (hg x).1, (hg x).2]
+
+@[simp] theorem File.restoreIn_name (fs : List File) (x : File) : (File.restoreIn fs x).name = x.name := by
+  unfold File.restoreIn; split <;> simp
+@[simp] theorem File.restoreIn_visible (fs : List File) (x : File) : (File.restoreIn fs x).visible = x.visible := by
+  unfold File.restoreIn; split <;> simp
+theorem File.restoreIn_live (fs : List File) (x : File) (h : x.deleted = false) : File.restoreIn fs x = x.restore := by
+  unfold File.restoreIn; simp [h]
+theorem File.restoreIn_congr (fs fs' : List File) (x : File) (h : ∀ nm, hasLive nm fs' = hasLive nm fs) :
+    File.restoreIn fs' x = File.restoreIn fs x := by
+  unfold File.restoreIn; rw [h]
+
 theorem Folder.tick_files (G : Folder) :
-    G.tick.files = G.files.map (fun f => (fun f2 : File => if G.restoreCd = 1 then f2.restore else f2)
+    G.tick.files = G.files.map (fun f => (fun f2 : File => if G.restoreCd = 1 then File.restoreIn G.files f2 else f2)
       (if G.scanCd = 1 then f.scan else f)) := by
   unfold Folder.tick
   rw [Folder.restoreTick_files, (Folder.scanTick_rest G).2.2.1, Folder.scanTick_files]
-  by_cases h1 : G.restoreCd = 1 <;> by_cases h2 : G.scanCd = 1 <;> simp [h1, h2]
+  by_cases h1 : G.restoreCd = 1 <;> by_cases h2 : G.scanCd = 1 <;> simp only [h1, h2, if_true, if_false, List.map_map]
+  · apply List.map_congr_left
+    intro f _
+    exact File.restoreIn_congr _ _ _ (fun nm => hasLive_map nm G.files File.scan (fun x => ⟨x.scan_name, x.scan_deleted⟩))
+  · simp
 
 theorem folderEff_files (n : Node) (op : Op) (G : Folder) :
     (folderEff n op G).files = G.files.map (fileEff n op G) := by
@@ -521,6 +543,9 @@ theorem folderEff_files (n : Node) (op : Op) (G : Folder) :
         · simp only [hon, hs, if_true, Folder.instantScan_deleted, hd', Bool.false_eq_true, if_false, true_and]
           rw [Folder.tick_files, Folder.instantScan_files]
           simp [hd']
+          intro a _
+          rw [File.restoreIn_congr G.files (List.map File.scan G.files) _
+            (fun nm => hasLive_map nm G.files File.scan (fun x => ⟨x.scan_name, x.scan_deleted⟩))]
         · simp only [hon, hs, if_true, if_false, hd', Bool.false_eq_true, true_and]
           rw [Folder.tick_files]
     · simp [hon]
